@@ -406,6 +406,20 @@ def resource_catalogue():
         l_ = ["type T0 [int]"] + ["type T%d [T%d?]" % (k_, k_ - 1) for k_ in range(1, n_)] + ["a: T%d? = nil" % (n_ - 1)]
         l_ += ["type T0 [str]"] + ["type T%d [T%d?]" % (k_, k_ - 1) for k_ in range(1, n_)] + ["b: T%d? = a" % (n_ - 1)]
         one("alias_optlist_redefined_x%d" % n_, "\n".join(l_) + "\n")
+    # every pinned constant expression of C06's catalogue (boundary values of each kind under every operator, unary
+    # operators on folded sub-expressions, get / or on constants ...) as a compiler input: the folder must answer with a
+    # value or a diagnostic for each of them (round 8: a plain `-x` on a folded int minimum panicked)
+    try:
+        from . import c06 as _c06
+        seen_ = set()
+        for t_, _ctx in _c06.catalogue():
+            e_ = _c06.render(t_)
+            if e_ in seen_ or len(e_) > 300:
+                continue
+            seen_.add(e_)
+            one("c06_constant_%04d" % len(seen_), "x = %s\nprint x\n" % e_)
+    except Exception:        # the shapes above stand on their own
+        pass
     # string literals the scanner of the nesting guard and the grammar must delimit identically
     for tn_, lit_ in (("backslash_backslash_quote", '"\\\\" + "'), ("escaped_quote", '"a\\"b" + "'), ("hash_in_string", '"#" + "'),
                       ("triple_hash_in_string", '"###" + "'), ("backslash_n", '"\\n" + "'), ("lone_backslash_end", '"a\\\\"')):
